@@ -257,7 +257,13 @@ fn install() {
     static ONCE: Once = Once::new();
     ONCE.call_once(|| {
         turdb::verif::set_handler(Some(Arc::new(|name: &'static str, args: &[i64]| {
-            on_event(name, format!("{:?}", args), None, None);
+            if name == "mmap.page_mut" && args.len() >= 2 {
+                // [page, mapping address] -> "file:page"
+                let f = addr_path(args[1] as usize).and_then(|p| p.file_name().map(|s| s.to_string_lossy().to_string())).unwrap_or_default();
+                on_event(name, format!("{}:{}", f, args[0]), None, None);
+            } else {
+                on_event(name, format!("{:?}", args), None, None);
+            }
         })));
         turdb::verif::set_file_handler(Some(Arc::new(|kind: &'static str, path: &Path| {
             let fname = path.file_name().map(|s| s.to_string_lossy().to_string()).unwrap_or_default();
